@@ -12,3 +12,6 @@ def run(chk):
         jit = [[b[0] + " jitter_us=50"] + b[1:] for b in N.random_behaviours(chk.rng, 1500, "c05")]
         N.run_driver(chk, jit, "random-moving-clock")   # clock advances 50 us per read inside the node; contract tolerance 20 ms
     chk.assumptions += N.ASSUME
+
+
+from replaykit import replay  # noqa: E402,F401
